@@ -3,3 +3,4 @@ pub mod crash;
 pub mod freeze;
 pub mod pool;
 pub mod rules;
+pub mod tx;
